@@ -41,3 +41,61 @@ Example C06_mjpeg_example :
   | _ => False
   end.
 Proof. vm_compute. repeat split; reflexivity. Qed.
+
+(* ---- the translated kernels (tools/go2coq, regenerated from the Go source on every run) ----
+   The integer formulas of rtpmjpeg/encoder.go and of the three header marshal functions - the five segment lengths
+   int(image[0])<<8 | int(image[1]), the APPn markers 0xE0..0xE2, Quantization: 255, jh.Type += 64, FragmentOffset =
+   uint32(offset) and its bytes >> 16, >> 8, low, byte(Width/8), byte(Height/8), the restart-marker header bytes
+   (Interval >> 8, Interval, Count 0xFFFF), the quantization-table header length len(Tables)*64 and its two bytes,
+   the payload budget remaining := PayloadMaxSize - len(buf) with its clipping remaining > ldata (Bridge.rem_code),
+   offset += remaining, Marker: len(data) == 0, the loop exit, e.sequenceNumber++ - ARE the formulas of Model.seg_len /
+   is_skipped / jhdr / rst_hdr / qt_hdr / payloads / cont_payloads / mk_pkts: be16, 224..226, 255, (ty+64) mod 256,
+   (off/65536) mod 256, hi8 off, lo8 off, (w/8) mod 256, N.min (max - nlen buf) (nlen data) (None when max <? nlen buf),
+   off + rem, rest = [], seq_next. *)
+From Coq Require Import ZArith.
+From GVL Require Import Wrap.
+From GVG Require Import Kern.
+From GV_mjpeg Require Import BridgeLib Bridge.
+Open Scope Z_scope.
+
+Theorem C06_mjpeg_kernels_are_the_code :
+  forall (a b ty off w h iv nt max lbuf ldata rem s : N) (rest : bytes),
+  byte a -> byte b -> byte ty -> Z.of_N off < i64max -> Z.of_N w < i64max -> Z.of_N h < i64max -> u16 iv ->
+  Z.of_N nt * 64 < i64max -> Z.of_N max < i64max -> Z.of_N lbuf < i64max -> Z.of_N (off + rem) < i64max ->
+  k_mjpeg_mlen_skip (Z.of_N a) (Z.of_N b) = Z.of_N (be16 a b) /\ k_mjpeg_mlen_dqt (Z.of_N a) (Z.of_N b) = Z.of_N (be16 a b) /\
+  k_mjpeg_mlen_dri (Z.of_N a) (Z.of_N b) = Z.of_N (be16 a b) /\ k_mjpeg_mlen_sof (Z.of_N a) (Z.of_N b) = Z.of_N (be16 a b) /\
+  k_mjpeg_mlen_sos (Z.of_N a) (Z.of_N b) = Z.of_N (be16 a b) /\
+  k_mjpeg_skip0 = Z.of_N 224 /\ k_mjpeg_skip1 = Z.of_N 225 /\ k_mjpeg_skip2 = Z.of_N 226 /\ k_mjpeg_enc_q = Z.of_N 255 /\
+  k_mjpeg_type_dri (Z.of_N ty) = Z.of_N ((ty + 64) mod 256) /\
+  w8 (k_mjpeg_jh_off2 (k_mjpeg_fragoff (Z.of_N off))) = Z.of_N ((off / 65536) mod 256) /\
+  w8 (k_mjpeg_jh_off1 (k_mjpeg_fragoff (Z.of_N off))) = Z.of_N (hi8 off) /\
+  w8 (k_mjpeg_jh_off0 (k_mjpeg_fragoff (Z.of_N off))) = Z.of_N (lo8 off) /\
+  k_mjpeg_jh_w (Z.of_N w) = Z.of_N ((w / 8) mod 256) /\ k_mjpeg_jh_h (Z.of_N h) = Z.of_N ((h / 8) mod 256) /\
+  w8 (k_mjpeg_rst_i1 (Z.of_N iv)) = Z.of_N (hi8 iv) /\ w8 (k_mjpeg_rst_i0 (Z.of_N iv)) = Z.of_N (lo8 iv) /\
+  w8 (k_mjpeg_rst_c1 k_mjpeg_rst_count) = Z.of_N 255 /\ w8 (k_mjpeg_rst_c0 k_mjpeg_rst_count) = Z.of_N 255 /\
+  k_mjpeg_qth_l (Z.of_N nt) = Z.of_N (nt * 64) /\
+  w8 (k_mjpeg_qth_l1 (k_mjpeg_qth_l (Z.of_N nt))) = Z.of_N (hi8 (nt * 64)) /\
+  w8 (k_mjpeg_qth_l0 (k_mjpeg_qth_l (Z.of_N nt))) = Z.of_N (lo8 (nt * 64)) /\
+  (rem_code (Z.of_N max) (Z.of_N lbuf) (Z.of_N ldata) <? 0) = (max <? lbuf)%N /\
+  ((lbuf <= max)%N -> rem_code (Z.of_N max) (Z.of_N lbuf) (Z.of_N ldata) = Z.of_N (N.min (max - lbuf) ldata)) /\
+  k_mjpeg_offset_acc (Z.of_N off) (Z.of_N rem) = Z.of_N (off + rem) /\
+  k_mjpeg_marker (Z.of_N (nlen rest)) = match rest with [] => true | _ :: _ => false end /\
+  k_mjpeg_done (Z.of_N (nlen rest)) = match rest with [] => true | _ :: _ => false end /\
+  k_mjpeg_seq (Z.of_N s) = Z.of_N (seq_next s).
+Proof. exact enc_kernels_are_the_code. Qed.
+Print Assumptions C06_mjpeg_kernels_are_the_code.
+
+(* the translated kernels compute, on the boundaries: a 1450-byte limit and a 148-byte header leave 1302 bytes, clipped
+   to 1000 when only 1000 are left, not clipped at exactly 1302; a header longer than the limit gives a negative count;
+   the marker is set when no data is left; offset 0x123456 is written as 12 34 56; width 2040 -> 255; segment length
+   0x01 0x02 = 258; two tables -> 00 80; type 1 with a restart interval -> 65; 65535++ = 0 *)
+Example C06_mjpeg_example_kernels :
+  rem_code 1450 148 5000 = 1302 /\ rem_code 1450 148 1000 = 1000 /\ rem_code 1450 148 1302 = 1302 /\
+  rem_code 1450 148 1303 = 1302 /\ rem_code 100 148 5000 = -48 /\
+  k_mjpeg_marker 0 = true /\ k_mjpeg_marker 1 = false /\ k_mjpeg_done 0 = true /\ k_mjpeg_offset_acc 1302 1442 = 2744 /\
+  w8 (k_mjpeg_jh_off2 (k_mjpeg_fragoff 1193046)) = 18 /\ w8 (k_mjpeg_jh_off1 (k_mjpeg_fragoff 1193046)) = 52 /\
+  w8 (k_mjpeg_jh_off0 (k_mjpeg_fragoff 1193046)) = 86 /\ k_mjpeg_jh_w 2040 = 255 /\ k_mjpeg_jh_h 8 = 1 /\
+  k_mjpeg_mlen_sos 1 2 = 258 /\ k_mjpeg_mlen_dqt 0 67 = 67 /\
+  w8 (k_mjpeg_qth_l1 (k_mjpeg_qth_l 2)) = 0 /\ w8 (k_mjpeg_qth_l0 (k_mjpeg_qth_l 2)) = 128 /\
+  w8 (k_mjpeg_rst_i1 258) = 1 /\ w8 (k_mjpeg_rst_i0 258) = 2 /\ k_mjpeg_type_dri 1 = 65 /\ k_mjpeg_seq 65535 = 0.
+Proof. vm_compute. repeat split. Qed.
